@@ -76,9 +76,12 @@ def gcv_block(rep: Report, s: Smoother):
         gd = upd[0].guards[-1]
         from ..poly import cmp_key
         best = Rat.atom("gcv_temp[0]")
-        cands = [Rat.atom("gcv[0]")] + ([score.rhs] if score is not None else [])
+        cands = [Rat.atom("gcv[0]")] + ([score.rhs, Rat.atom(f"tuple[{score.rhs.key()};elem[lambda_range]][0]")] if score is not None else [])
         accepted = {cmp_key(op, c_, best) for c_ in cands for op in (ast.Lt(), ast.LtE())}
-        okm = (gd in accepted or gd.startswith("lt0[-1*gcv_temp[0] + ") or gd.startswith("le0[-1*gcv_temp[0] + ")) and yt[0][2][-1] == gd and yt[0][0].key() == z \
+        gdef = [d for d in sc.scalars.get("gcv", []) if d.region is sweep[0].region]
+        gcv_is_pair = (not gdef) or (len(gdef) == 1 and gdef[0].rhs.key().startswith("tuple[") and gdef[0].rhs.key().endswith(";elem[lambda_range]]")
+                                     and score is not None and gdef[0].rhs.key() == f"tuple[{score.rhs.key()};elem[lambda_range]]")
+        okm = gd in accepted and gcv_is_pair and yt[0][2][-1] == gd and yt[0][0].key() == z \
             and upd[0].rhs.key().startswith("tuple[") and upd[0].rhs.key().endswith(";elem[lambda_range]]")
     ob("R-ARGMIN", "the best score, its lambda and its curve are updated together under `score < best`", okm, det, upd[0].stmt if upd else "arg-min update")
     leave = [e for e in sc.exits if e.kind in ("break", "continue", "return") and e.region is sweep[0].region]
@@ -133,6 +136,11 @@ def gcv_block(rep: Report, s: Smoother):
     # ---- 5. residuals of valid cells only
     rs = arr("r_sel")
     oksel = len(rs) == 1 and re.fullmatch(r"r_arr\[and\[(.*)\]\]", rs[0][0].key()) is not None and f"ne0[{w}]" in rs[0][0].key()
+    if oksel:
+        # ... and of cells the previous pass did not reject: exactly `valid and robust weight != 0` (any other selection - e.g. the rejected
+        # cells only - makes the scale meaningless or empty, and the robust passes silently stop re-weighting)
+        inner_sel = sorted(re.fullmatch(r"r_arr\[and\[(.*)\]\]", rs[0][0].key()).group(1).split(";"))
+        oksel = inner_sel == sorted([f"ne0[{w}]", "ne0[r_weights]"])
     if not rs:
         # selection written inline in the median
         mads = [d for d in sc.scalars.get("mad", [])]
@@ -154,6 +162,11 @@ def gcv_block(rep: Report, s: Smoother):
         pass
     oku = len(ua) == 1 and refu is not None and desqrt(ua[0][0] * ua[0][0]).equals(desqrt(refu * refu))
     ob("R-FORMULA", "studentised residual u = r / (1.4826 MAD sqrt(1 - h))", oku, f"u_arr = {[a[0].key()[:160] for a in ua]}", ua[0][1] if ua else "u_arr")
+    # the leverage used for the studentisation is the same approximation, evaluated at the lambda selected in this pass
+    g2 = [a for a in arr("gamma") if "elem[lambda_range]" not in a[0].key()]
+    okg2 = len(g2) == 1 and any(g2[0][0].equals(R("w_temp / (w_temp + LB * d_eigs**2)", {"LB": Rat.atom(lb)})) for lb in ("gcv_temp[1]", "best_gcv[1]"))
+    ob("R-FORMULA", "robust pass: leverage h = w / (w + lambda_best * eig^2) at the lambda selected in this pass", okg2,
+       f"gamma (robust pass) = {[a[0].key() for a in g2]}", g2[0][1] if g2 else "gamma (robust pass)")
     rwd = [a for a in arr("r_weights") if not a[0].key().startswith("ones[")]
     okb = len(rwd) == 1 and rwd[0][0].equals(R("(1 - (u_arr/4.685)**2)**2"))
     ob("R-FORMULA", "bisquare weights (1 - (u/4.685)^2)^2", okb, f"{[a[0].key() for a in rwd]}", rwd[0][1] if rwd else "r_weights")
